@@ -61,7 +61,11 @@ def run_impl(case):
         coll = rnd2.random() < 0.5
         first = rnd2.random() < 0.5           # the field under test comes before / after the sibling it collides with
         mine = csr.Field(cls, shape, **kw)
-        if first:
+        if rnd2.random() < 0.3:
+            # an array whose items have different widths
+            reg = csr.Register({"l": [csr.Field(action.RW, w0), mine, csr.Field(action.RW1C, w1)], "z": csr.Field(action.RW, 2)}, access="rw")
+            dut, off = [f for p, f in reg if p == ("l", 1)][0], w0
+        elif first:
             reg = csr.Register({"a": {"b": mine}, ("a__b" if coll else "t"): csr.Field(action.RW, w0),
                                 "z": csr.Field(action.RW, w1)}, access="rw")
             dut, off = [f for p, f in reg if p == ("a", "b")][0], 0
